@@ -311,9 +311,16 @@ def op_call_batch(task):
         pos = [Tensor.from_dok({}, dimensions=(2,), format="d")] if c["positional"] else []
         _EntryRecorder.entered = False
         try:
+            from tensora.compile import BackendCompiler, evaluate_cffi
+
             if c["entry"] == "method":
                 fn = tensora.tensor_method(c["text"], c["formats"])
                 r = fn(*pos, **kwargs)
+            elif c["entry"] == "method_cffi":
+                fn = tensora.tensor_method(c["text"], c["formats"], BackendCompiler.cffi)
+                r = fn(*pos, **kwargs)
+            elif c["entry"] == "evaluate_cffi":
+                r = evaluate_cffi(c["text"], c["output_format"], *pos, **kwargs)
             else:
                 r = tensora.evaluate(c["text"], c["output_format"], *pos, **kwargs)
             outs.append({"cid": c["cid"], "returned": True, "entered": _EntryRecorder.entered,
@@ -549,6 +556,18 @@ def _install_conc():
 
     cffi.FFI.compile = compile_
 
+    # every read of an argument's dimensions during validation is a touch point too (a yield point for the scheduler;
+    # these events are not part of the model and are dropped before trace validation)
+    import tensora.tensor as ttensor
+
+    orig_dims = ttensor.Tensor.dimensions
+
+    def dims(self):
+        C.point("dims")
+        return orig_dims.fget(self)
+
+    ttensor.Tensor.dimensions = property(dims)
+
     orig_alloc = tmod.allocate_taco_structure
 
     def alloc(*a, **kw):
@@ -674,7 +693,7 @@ def op_concurrency(task):
             for t in ths:
                 t.join(timeout=20)
             hung = hung or any(t.is_alive() for t in ths)
-        rounds_out.append({"rid": rnd["rid"], "events": [e for e in C.events if e["ev"] != "start"],
+        rounds_out.append({"rid": rnd["rid"], "events": [e for e in C.events if e["ev"] not in ("start", "dims")],
                            "same": {str(tid): results.get(tid) == alone[name] for tid, name in threads},
                            "errors": {str(k): v for k, v in errors.items()}, "hung": hung})
         keep.clear()
